@@ -115,6 +115,31 @@ CHECKS["C02"] = {
     ],
 }
 
+CHECKS["C03"] = {
+    "engine": "simnet",
+    "level": "exploration",
+    "technique": "property-based testing (rapid) of every routing operation over a simulated faulty network under synctest virtual time; bounded-virtual-time liveness oracle, goroutine census after Close",
+    "level_text": "Every public routing operation is run against generated fault patterns and cancellation instants inside a virtual-time bubble. 'Eventually returns' is decided as "
+                  "'returns within 1 s of virtual time after the last contacted peer answered, failed or timed out (or after cancellation)', 'work ends by itself' as 'no goroutine of the bubble alive "
+                  "10 min after the return and after Close'. Exploration: scenarios are sampled.",
+    "level_note": "Transport model honours context cancellation and its own timeouts (10 s read, 60 s dial, 30 s put); liveness only as bounded virtual time; FullRT and dual clients are exercised in their own checks (C16, C15).",
+    "parts": [
+        {"part": "operations", "pkg": ROOT, "test": "TestVerif_C03_Operations", "quick": 2500, "thorough": 40000},
+    ],
+}
+
+CHECKS["C04"] = {
+    "engine": "simnet",
+    "level": "exploration",
+    "technique": "property-based testing (rapid) of value searches over simulated responders with assigned valid/stale/invalid/mis-keyed records; validity, strict-improvement and best-of-supplied oracle",
+    "level_text": "Generated assignments of records to responders and local storage, quorums and arrival orders are executed against the real SearchValue/GetValue/GetPublicKey; every yielded value is "
+                  "re-validated, the stream must be strictly improving and the final value at least as good as every valid value supplied before the stream ended. Exploration: scenarios are sampled.",
+    "level_note": "Test validator = total order on (rank, bytes) with optional end-of-life under the virtual clock; the standard client is exercised here, the accelerated and dual clients in C16/C15 parts.",
+    "parts": [
+        {"part": "values", "pkg": ROOT, "test": "TestVerif_C04_Values", "quick": 2500, "thorough": 40000},
+    ],
+}
+
 MANIFEST_HEAD = {
     "version": 1,
     "setup_cmd": "bin/check --setup",
